@@ -438,6 +438,9 @@ func (f Slice) locate(pp Expr, data any, rest Expr, max int) (locs []Expr) {
 			if len(rest) == 0 { // last one
 				for i := start; i < end; i += step {
 					locs = locateAppendFrag(locs, pp, Nth(i))
+					if 0 < max && max <= len(locs) {
+						break
+					}
 				}
 			} else {
 				cp := append(pp, nil) // place holder
@@ -453,6 +456,9 @@ func (f Slice) locate(pp Expr, data any, rest Expr, max int) (locs []Expr) {
 			if len(rest) == 0 { // last one
 				for i := start; end < i; i += step {
 					locs = locateAppendFrag(locs, pp, Nth(i))
+					if 0 < max && max <= len(locs) {
+						break
+					}
 				}
 			} else {
 				cp := append(pp, nil) // place holder
@@ -474,6 +480,9 @@ func (f Slice) locate(pp Expr, data any, rest Expr, max int) (locs []Expr) {
 			if len(rest) == 0 { // last one
 				for i := start; i < end; i += step {
 					locs = locateAppendFrag(locs, pp, Nth(i))
+					if 0 < max && max <= len(locs) {
+						break
+					}
 				}
 			} else {
 				cp := append(pp, nil) // place holder
@@ -489,6 +498,9 @@ func (f Slice) locate(pp Expr, data any, rest Expr, max int) (locs []Expr) {
 			if len(rest) == 0 { // last one
 				for i := start; end < i; i += step {
 					locs = locateAppendFrag(locs, pp, Nth(i))
+					if 0 < max && max <= len(locs) {
+						break
+					}
 				}
 			} else {
 				cp := append(pp, nil) // place holder
@@ -510,6 +522,9 @@ func (f Slice) locate(pp Expr, data any, rest Expr, max int) (locs []Expr) {
 			if len(rest) == 0 { // last one
 				for i := start; i < end; i += step {
 					locs = locateAppendFrag(locs, pp, Nth(i))
+					if 0 < max && max <= len(locs) {
+						break
+					}
 				}
 			} else {
 				cp := append(pp, nil) // place holder
@@ -525,6 +540,9 @@ func (f Slice) locate(pp Expr, data any, rest Expr, max int) (locs []Expr) {
 			if len(rest) == 0 { // last one
 				for i := start; end < i; i += step {
 					locs = locateAppendFrag(locs, pp, Nth(i))
+					if 0 < max && max <= len(locs) {
+						break
+					}
 				}
 			} else {
 				cp := append(pp, nil) // place holder
